@@ -1,3 +1,135 @@
-(* C05/C06 proofs: the output path emits exactly the records of the stream. *)
-From PV Require Import Cbuf.CbufDefs Cbuf.CbufSpec Cbuf.CbufFacts Dsh.Output Dsh.OutputSpec.
+(* C05/C06 proofs: the output path emits exactly the records of the stream.
+   The development is split over
+     Dsh/OutputDomain.v  the definitions the statements use (script, stream, domain)
+     Dsh/OutputAbs.v     lines, chunks, marker search, C strings (lists only)
+     Dsh/OutputSteps.v   write_from_fd(-1), _flush_lines, the tail loop on the abstract FIFO
+     Base/ShuffleFacts.v interleavings
+   and concluded here: the read loop, the whole stream, the label, C05's identity. *)
+From PV Require Import Cbuf.CbufDefs Cbuf.CbufSpec Cbuf.CbufFacts Dsh.Output Dsh.OutputSpec Dsh.OutputDomain.
+From PV Require Import Dsh.OutputAbs Dsh.OutputSteps Base.Shuffle.
+From PV Require Export Base.ShuffleFacts.
 Local Open Scope N_scope.
+
+(* the part of the domain that every suffix of the stream inherits *)
+Definition dom (x : octx) (st : bytes) : Prop :=
+  ~ In 0 st /\ lines_ok st /\ (read_rc x = true -> find_sub RC_MAGIC st = None).
+
+Lemma dom_tail x a b : dom x (a ++ b) -> dom x (snd (sl a) ++ b).
+Proof.
+  intros (Z & L & K). unfold dom. csplit.
+  - intros Hin. apply Z. rewrite (sl_concat a), <- app_assoc. apply in_or_app. right. exact Hin.
+  - apply lines_ok_tail. exact L.
+  - intros Hr. specialize (K Hr). rewrite (sl_concat a), <- app_assoc in K.
+    apply find_sub_none_app in K. tauto.
+Qed.
+
+Lemma dom_head x a b : dom x (a ++ b) -> ~ In 0 a /\ (read_rc x = true -> find_sub RC_MAGIC a = None).
+Proof.
+  intros (Z & L & K). split.
+  - intros Hin. apply Z. apply in_or_app. left. exact Hin.
+  - intros Hr. specialize (K Hr). apply find_sub_none_app in K. tauto.
+Qed.
+
+(* ---------- the read loop: _handle_rcmd_stdout/_stderr called until end of file ---------- *)
+Lemma handle_loop_spec : forall fuel x c s rc acc, Inv c -> good c -> nonl (abs c) -> script_ok s ->
+  dom x (abs c ++ stream_of s) -> (script_size s < fuel)%nat ->
+  exists c' rc', handle_loop fuel x c s rc acc =
+                   (c', rc', acc ++ map (emit x) (fst (sl (abs c ++ stream_of s)))) /\
+    Inv c' /\ abs c' = snd (sl (abs c ++ stream_of s)).
+Proof.
+  induction fuel as [|f IH]; intros x c s rc acc H G Hn Hok D Hf; [lia|].
+  cbn [handle_loop]. unfold do_output.
+  assert (Hu : used c < CBUF_MAXSIZE).
+  { destruct D as (_ & L & _). pose proof (partial_bound _ _ Hn L) as B. rewrite abs_length in B. lia. }
+  destruct (wfd_step c s H G Hu Hok) as (c1 & s1 & r & E & I1 & G1 & Ok1 & R). rewrite E.
+  destruct r as [n nd| |].
+  - (* data arrived *)
+    destruct R as (Hpos & dl & S1 & A1 & Sz).
+    rewrite S1, app_assoc, <- A1 in D.
+    destruct (dom_head _ _ _ D) as [Z1 M1].
+    destruct (flush_lines_spec (S (N.to_nat (used c1))) x c1 rc [] I1 ltac:(rewrite abs_length; lia) Z1 M1)
+      as (c2 & rc2 & E2 & I2 & A2 & M2).
+    rewrite E2. cbn [app].
+    assert (Er : (Z.of_N n <=? 0)%Z = false) by lia. rewrite Er.
+    assert (G2 : good c2) by (eapply good_meta; eauto).
+    assert (N2 : nonl (abs c2)) by (rewrite A2; apply sl_tail_nonl).
+    apply dom_tail in D. rewrite <- A2 in D.
+    destruct (IH x c2 s1 rc2 (acc ++ map (emit x) (fst (sl (abs c1)))) I2 G2 N2 Ok1 D ltac:(lia))
+      as (c' & rc' & E' & I' & A').
+    exists c', rc'. rewrite E'. rewrite S1, app_assoc, <- A1. rewrite (sl_app (abs c1)). cbn [fst snd].
+    rewrite <- A2. rewrite map_app, app_assoc. auto.
+  - (* EAGAIN *)
+    destruct R as (A1 & S1 & Sz). change (1 <=? 0)%Z with false. cbv iota. rewrite app_nil_r.
+    rewrite <- A1, <- S1 in D.
+    assert (N1 : nonl (abs c1)) by (rewrite A1; auto).
+    destruct (IH x c1 s1 rc acc I1 G1 N1 Ok1 D ltac:(lia)) as (c' & rc' & E' & I' & A').
+    exists c', rc'. rewrite E', A1, S1 in *. auto.
+  - (* end of file *)
+    destruct R as (A1 & S1). rewrite S1, app_nil_r in *. rewrite <- A1 in D, Hn.
+    destruct D as (Z1 & _ & M1).
+    destruct (flush_lines_spec (S (N.to_nat (used c1))) x c1 rc [] I1 ltac:(rewrite abs_length; lia) Z1 M1)
+      as (c2 & rc2 & E2 & I2 & A2 & M2).
+    rewrite E2. change (0 <=? 0)%Z with true. cbv iota. cbn [app].
+    exists c2, rc2. rewrite <- A1. auto.
+Qed.
+
+(* ---------- the whole stream ---------- *)
+Lemma in_domain_dom x st : in_domain x st -> dom x st.
+Proof.
+  unfold in_domain, dom, lines_ok. rewrite split_lines_sl. tauto.
+Qed.
+
+Lemma emit_ctx x b : emit (mkoctx (labels x) (keepdom x) (host x) b) = emit x.
+Proof. reflexivity. Qed.
+
+Lemma calls_are_records : forall x s, script_ok s -> in_domain x (stream_of s) ->
+  snd (run_stream x s) = records (emit x) (stream_of s).
+Proof.
+  intros x s Hok D. apply in_domain_dom in D. unfold run_stream.
+  destruct (create CBUF_MINSIZE CBUF_MAXSIZE) as [c0|] eqn:Ec; [|discriminate Ec].
+  pose proof (good_create c0 Ec) as G0. apply inv_create in Ec as (I0 & A0 & _).
+  assert (N0 : nonl (abs c0)) by (rewrite A0; unfold nonl; cbn; tauto).
+  assert (D0 : dom x (abs c0 ++ stream_of s)) by (rewrite A0; exact D).
+  destruct (handle_loop_spec (S (S (script_size s))) x c0 s None [] I0 G0 N0 Hok D0 ltac:(lia))
+    as (c1 & rc & E & I1 & A1).
+  rewrite E. cbn [snd app]. rewrite A0 in *. cbn [app] in *.
+  unfold records. rewrite split_lines_sl. destruct (sl (stream_of s)) as [ls t] eqn:Es. cbn [fst snd] in *.
+  f_equal.
+  (* _flush_output: no complete line is left, the rest goes out in pieces *)
+  assert (Zt : ~ In 0 (abs c1)).
+  { destruct D as (Z & _). intros Hin. apply Z. rewrite (sl_concat (stream_of s)), Es. cbn [fst snd].
+    apply in_or_app. right. rewrite <- A1. exact Hin. }
+  assert (Nt : nonl (abs c1)) by (rewrite A1; pose proof (sl_tail_nonl (stream_of s)) as T; rewrite Es in T; exact T).
+  unfold flush_output.
+  destruct (flush_lines_spec (S (N.to_nat (used c1))) (mkoctx (labels x) (keepdom x) (host x) false) c1 None []
+              I1 ltac:(rewrite abs_length; lia) Zt ltac:(cbn [read_rc]; discriminate))
+    as (c2 & rc2 & E2 & I2 & A2 & M2).
+  rewrite E2. rewrite (sl_nonl _ Nt) in *. cbn [fst snd map app] in *.
+  rewrite flush_tail_spec by (auto; rewrite A2; auto). rewrite A2, A1. reflexivity.
+Qed.
+
+(* ---------- the label ---------- *)
+Lemma label_spec : forall keep h, (length h < N.to_nat LINEBUFSIZE)%nat ->
+  label keep h = match h with
+                 | c :: _ => if negb (is_digit c) && negb keep then fst (split_at 46 h) else h
+                 | [] => [] end.
+Proof.
+  intros keep h Hl. unfold label. rewrite firstn_all2 by lia. destruct h; reflexivity.
+Qed.
+
+(* ---------- C05: the texts, labels aside, concatenate to the stream ---------- *)
+Lemma stream_identity : forall x s, script_ok s -> in_domain x (stream_of s) ->
+  exists texts, snd (run_stream x s) = with_labels x texts /\ concat (map snd texts) = stream_of s.
+Proof.
+  intros x s Hok D. rewrite (calls_are_records x s Hok D). unfold records. rewrite split_lines_sl.
+  pose proof (sl_concat (stream_of s)) as C. destruct (sl (stream_of s)) as [ls t]. cbn [fst snd] in C.
+  pose proof (chunks_f_concat _ flush_k_pos (length t) t (le_n _)) as CC. fold (chunks (N.to_nat FLUSH_CHUNK - 1) t) in CC.
+  exists (map (fun l => (true, l)) ls ++
+          match chunks (N.to_nat FLUSH_CHUNK - 1) t with [] => [] | p :: ps => (true, p) :: map (fun q => (false, q)) ps end).
+  unfold with_labels. rewrite !map_app, !map_map. cbn [fst snd]. split.
+  - f_equal. destruct (chunks (N.to_nat FLUSH_CHUNK - 1) t) as [|p ps]; [reflexivity|].
+    cbn [map fst snd]. rewrite map_map. cbn [fst snd]. rewrite map_id. reflexivity.
+  - rewrite concat_app, map_id. rewrite C. f_equal. etransitivity; [|exact CC].
+    destruct (chunks (N.to_nat FLUSH_CHUNK - 1) t) as [|p ps]; [reflexivity|].
+    cbn [map fst snd concat]. rewrite map_map. cbn [snd]. rewrite map_id. reflexivity.
+Qed.
